@@ -147,6 +147,8 @@ def inlined(facts, body, depth=0, stack=(), t1=True, t2=True, same_type=None):
                 blk['term'] = {'k': 'goto', 'target': off_b}
                 changed = True
         i += 1
+    if t2 and unroll_array_loops(blocks, locals_):
+        changed = True
     if t2 and desugar_combinators(facts, body, blocks, locals_, depth, stack, t1):
         changed = True
     if t2 and desugar_adaptors(facts, body, blocks, locals_, depth, stack, t1):
@@ -163,6 +165,166 @@ def inlined(facts, body, depth=0, stack=(), t1=True, t2=True, same_type=None):
     if depth == 0:
         _cache[key] = res
     return res
+
+
+# ======================================================================================================
+# T2a — a `for` loop over an array literal (`for (mine, theirs) in [(&mut self.p, p), (&mut self.n, n)] { .. }`) is unrolled:
+# one copy of the loop body per element, in order.  Sound: the array's length and elements are literally in the body.
+# ======================================================================================================
+
+def unroll_array_loops(blocks, locals_, max_len=4):
+    changed = False
+    for ai in range(len(blocks)):
+        blk = blocks[ai]
+        t = blk['term']
+        if blk['cleanup'] or t['k'] != 'call' or t.get('target') is None or not t.get('callee'):
+            continue
+        c = t['callee']
+        if c.get('name') != 'into_iter' or len(t['args']) != 1 or not t['dest'] or t['dest']['proj']:
+            continue
+        al = _plain_local(t['args'][0])
+        if al is None:
+            continue
+        ds = _defs_of(blocks, al)
+        if len(ds) != 1 or ds[0][1] != 'stmt' or ds[0][2]['rv'].get('k') != 'agg' or ds[0][2]['rv'].get('agg') != 'array':
+            continue
+        ops = ds[0][2]['rv']['ops']
+        if not (1 <= len(ops) <= max_len):
+            continue
+        # follow the iterator local through plain moves to the loop head: `_r = &mut it; _n = next(_r)`
+        it_locals = {t['dest']['local']}
+        head = None
+        cur = t['target']
+        for _ in range(4):
+            b2 = blocks[cur]
+            for st in b2['stmts']:
+                if st['k'] == 'assign' and st['rv'].get('k') == 'use' and st['rv']['op'].get('k') in ('move', 'copy') \
+                        and not st['rv']['op']['place']['proj'] and st['rv']['op']['place']['local'] in it_locals and not st['place']['proj']:
+                    it_locals.add(st['place']['local'])
+            t2 = b2['term']
+            if t2['k'] == 'call' and (t2.get('callee') or {}).get('name') == 'next' and len(t2['args']) == 1:
+                head = cur
+                break
+            if t2['k'] == 'goto':
+                cur = t2['target']
+                continue
+            break
+        if head is None:
+            continue
+        hb = blocks[head]
+        nl = hb['term']['dest']['local'] if not hb['term']['dest']['proj'] else None
+        swb = hb['term'].get('target')
+        if nl is None or swb is None or blocks[swb]['term']['k'] != 'switch':
+            continue
+        sw = blocks[swb]['term']
+        tg = dict((v, b_) for v, b_ in sw['targets'])
+        if 0 not in tg or 1 not in tg:
+            continue
+        exit_b, body0 = tg[0], tg[1]
+        # the natural loop: blocks that reach `head` without leaving through exit
+        preds = {}
+        for bi, b_ in enumerate(blocks):
+            for y in _succs(b_['term']):
+                preds.setdefault(y, []).append(bi)
+        loop = {head}
+        stack_ = [x for x in preds.get(head, []) if x != cur and _reaches(blocks, body0, x, head)]
+        while stack_:
+            x = stack_.pop()
+            if x in loop:
+                continue
+            loop.add(x)
+            stack_.extend(preds.get(x, []))
+        loop.discard(ai)
+        body_blocks = sorted(b_ for b_ in loop if b_ not in (head, swb) and not blocks[b_]['cleanup'])
+        if body0 not in body_blocks or len(body_blocks) > 60:
+            continue
+        # the iterator must not be used inside the body
+        used = False
+        for b_ in body_blocks:
+            sj = repr(blocks[b_])
+            if any(("'local': %d," % l) in sj or ("'local': %d}" % l) in sj for l in it_locals):
+                used = True
+        if used:
+            continue
+        some_ty = hb['term']['dest']
+        entries = []
+        for k, op in enumerate(ops):
+            off = len(blocks)
+            remap = {b_: off + 1 + i for i, b_ in enumerate(body_blocks)}
+            entry = {'cleanup': False, 'stmts': [{'k': 'assign', 'place': _pl(nl), 'rv': _agg(OPT, 'Some', 1, [op]), 'span': t['span']}],
+                     'term': {'k': 'goto', 'target': remap[body0]}}
+            blocks.append(entry)
+            entries.append(off)
+            for b_ in body_blocks:
+                nb = copy.deepcopy(blocks[b_])
+                nb['term'] = _retarget(nb['term'], remap, head)
+                blocks.append(nb)
+        # chain: copy k's back edge (to `head`, marked) goes to copy k+1's entry, the last one to the loop exit
+        for k, off in enumerate(entries):
+            nxt = entries[k + 1] if k + 1 < len(entries) else exit_b
+            lo, hi = off + 1, off + 1 + len(body_blocks)
+            for bi in range(lo, hi):
+                blocks[bi]['term'] = _retarget(blocks[bi]['term'], {('HEAD',): nxt}, None)
+        blk['term'] = {'k': 'goto', 'target': entries[0]}
+        # the array itself is gone: its elements are handed to the copies directly (they must not be consumed twice)
+        agg_stmt = ds[0][2]
+        op_locals = set(o['place']['local'] for o in ops if o.get('k') in ('move', 'copy') and not o['place']['proj'])
+        for b_ in blocks:
+            # .. and their storage must outlive the place where the array used to swallow them
+            b_['stmts'] = [x for x in b_['stmts'] if x is not agg_stmt and not (x['k'] == 'dead' and x.get('local') in op_locals)]
+        changed = True
+    return changed
+
+
+def _succs(t):
+    k = t['k']
+    out = []
+    if k == 'goto':
+        out.append(t['target'])
+    elif k == 'switch':
+        out += [b for _, b in t['targets']]
+        if t.get('otherwise') is not None:
+            out.append(t['otherwise'])
+    elif k in ('call', 'drop', 'assert'):
+        if t.get('target') is not None:
+            out.append(t['target'])
+    return out
+
+
+def _reaches(blocks, start, goal, avoid):
+    seen, st = set(), [start]
+    while st:
+        x = st.pop()
+        if x == goal:
+            return True
+        if x in seen or x == avoid:
+            continue
+        seen.add(x)
+        st.extend(_succs(blocks[x]['term']))
+    return False
+
+
+def _retarget(t, remap, head):
+    t = dict(t)
+
+    def f(b):
+        if b is None:
+            return b
+        if b == ('HEAD',):
+            return remap.get(('HEAD',), b)
+        if head is not None and b == head:
+            return ('HEAD',)
+        return remap.get(b, b)
+    if t['k'] == 'goto':
+        t['target'] = f(t['target'])
+    elif t['k'] == 'switch':
+        t['targets'] = [[v, f(b)] for v, b in t['targets']]
+        if t.get('otherwise') is not None:
+            t['otherwise'] = f(t['otherwise'])
+    elif t['k'] in ('call', 'drop', 'assert'):
+        if t.get('target') is not None:
+            t['target'] = f(t['target'])
+    return t
 
 
 # ======================================================================================================
